@@ -131,7 +131,8 @@ Lemma gfm_touches_only_seven : forall c b,
   o_escape o = o_escape o' /\ o_list_style o = o_list_style o' /\ o_sourcepos o = o_sourcepos o' /\
   o_experimental_minimize_commonmark o = o_experimental_minimize_commonmark o' /\
   o_escaped_char_spans o = o_escaped_char_spans o' /\ o_ignore_setext o = o_ignore_setext o' /\
-  o_ignore_empty_links o = o_ignore_empty_links o' /\ o_tasklist_classes o = o_tasklist_classes o'.
+  o_ignore_empty_links o = o_ignore_empty_links o' /\ o_tasklist_classes o = o_tasklist_classes o' /\
+  o_prefer_fenced o = o_prefer_fenced o' /\ o_figure_with_caption o = o_figure_with_caption o' /\ o_ol_width o = o_ol_width o'.
 Proof. intros c b. cbn. repeat split. Qed.
 
 (* ------------------------------------------------------------------ formatter, sink, in-place *)
